@@ -194,33 +194,55 @@ def base_kernel(d, ard, name="rbf", ls=None):
     return k
 
 
+def _stationary(name, l):
+    """vectorised closed forms (plain torch): RBF exp(-r^2/2), Matern-3/2 (1 + sqrt3 r) exp(-sqrt3 r), r = |(a - b) / l|;
+    verified against the loop references of gpmc/refs/kernels.py at import (_selftest)"""
+    def f(a, b):
+        diff = (a.unsqueeze(-2) - b.unsqueeze(-3)) / l
+        r2 = (diff * diff).sum(-1)
+        if name == "rbf":
+            return torch.exp(-0.5 * r2)
+        r = r2.clamp_min(0).sqrt()
+        return (1.0 + math.sqrt(3.0) * r) * torch.exp(-math.sqrt(3.0) * r)
+    return f
+
+
 def base_ref(d, ard, name="rbf", outputscale=1.0, ls=None):
     """closed-form reference of base_kernel (optionally times an outputscale): n1 x n2 matrix function"""
     ls = ls or LS
     l = torch.tensor(ls[:d] if ard else ls[:1], dtype=F64)
-    f = RK.rbf(l) if name == "rbf" else RK.matern(l, 1.5)
-    return lambda a, b: outputscale * RK.pairwise(f, a, b)
+    f = _stationary(name, l)
+    return lambda a, b: outputscale * f(a, b)
 
 
 def perdim_ref(d, ard, name="rbf", outputscale=1.0, ls=None, swap_h=None):
     """what a Kronecker assembly over the dimensions computes: prod_i [outputscale * k(a_i, b_i)] with the 1-d base kernel of dimension i.
     Equals base_ref only for kernels that are products over the dimensions with k(0) = 1 (e.g. RBF without an inner outputscale)."""
     ls = ls or LS
-    fs = []
-    for i in range(d):
-        l = torch.tensor([ls[i] if ard else ls[0]], dtype=F64)
-        fs.append(RK.rbf(l) if name == "rbf" else RK.matern(l, 1.5))
+    fs = [_stationary(name, torch.tensor([ls[i] if ard else ls[0]], dtype=F64)) for i in range(d)]
 
     def f(a, b):
         tot = torch.ones(a.shape[0], b.shape[0], dtype=F64)
         for i in range(d):
             if swap_h is None:
-                tot = tot * outputscale * RK.pairwise(fs[i], a[:, i:i + 1], b[:, i:i + 1])
+                tot = tot * outputscale * fs[i](a[:, i:i + 1], b[:, i:i + 1])
             else:  # d = 2, dimensions exchanged: factor of dimension 1-i, in units of grid steps
                 c = swap_h[1 - i] / swap_h[i]
-                tot = tot * outputscale * RK.pairwise(fs[1 - i], c * a[:, i:i + 1], c * b[:, i:i + 1])
+                tot = tot * outputscale * fs[1 - i](c * a[:, i:i + 1], c * b[:, i:i + 1])
         return tot
     return f
+
+
+def _selftest():
+    g = util.gen(0, "c09-selftest")
+    a, b = util.randn(g, 4, 2), util.randn(g, 3, 2)
+    for name in ("rbf", "matern"):
+        for l in (torch.tensor([0.35, 0.6], dtype=F64), torch.tensor([0.35], dtype=F64)):
+            loop = RK.pairwise(RK.rbf(l) if name == "rbf" else RK.matern(l, 1.5), a, b)
+            assert util.maxerr(_stationary(name, l)(a, b), loop) < 1e-14, name
+
+
+_selftest()
 
 
 PERDIM_MSG = "K_uu = per-dimension product prod_i k(x_i, x'_i) of the base kernel (incl. any inner outputscale) instead of k(x, x')"
